@@ -141,12 +141,127 @@ def single_root(ctx, rule='C07.single-root'):
     return res
 
 
+def _search_role(ctx):
+    """the tree search: function returning (bool, Vec<SearchPath>) -- exact-match flag plus the descent stack"""
+    cands = [f for f in ctx.facts.fns if f.kind != 'Closure' and f.locals[0]['ty'].startswith('(bool, std::vec::Vec<') and 'SearchPath' in f.locals[0]['ty']]
+    return cands[0] if len(cands) == 1 else None
+
+
+def exact_match_used(ctx, rule='C07.exact-match-used'):
+    """the search positions on the entry BEFORE the insertion point when the key is absent, so the only way to tell "found" from "neighbour" is the exact-match
+    flag it returns: every caller must test it (or hand it on); a caller that drops it acts on the neighbour of an absent key"""
+    res = []
+    F = ctx.facts
+    sr = _search_role(ctx)
+    if sr is None:
+        return [unresolved(rule, 'search role (function returning (bool, Vec<SearchPath>))')]
+    n = 0
+    for fn in F.fns:
+        sites = calls_to_fn(F, fn, sr)
+        if not sites:
+            continue
+        du = ctx.du(fn)
+        for bb, t, c in sites:
+            n += 1
+            d = t['dest']['l']
+            # locals that receive the flag
+            flags = set()
+            for b2 in fn.reachable_blocks():
+                for st in fn.blocks[b2]['stmts']:
+                    if st['k'] == 'assign' and st['rv']['k'] in ('use', 'un') :
+                        o = st['rv'].get('op') if st['rv']['k'] == 'use' else st['rv'].get('a')
+                        pl = op_place(o) if isinstance(o, dict) else None
+                        if pl is not None and pl['l'] == d and pl['pr'] and pl['pr'][0]['k'] == 'field' and pl['pr'][0].get('i', pl['pr'][0].get('name')) in (0, '0'):
+                            flags.add(st['p']['l'])
+            used = False
+            for b2 in sorted(fn.reachable_blocks()):
+                tt = fn.term(b2)
+                ops = []
+                if tt['k'] == 'switch':
+                    ops.append(tt['discr'])
+                for st in fn.blocks[b2]['stmts']:
+                    if st['k'] == 'assign' and st['p']['l'] == 0:
+                        from facts import rvalue_operands
+                        ops.extend(rvalue_operands(st['rv']))
+                for o in ops:
+                    pl = op_place(o)
+                    if pl is None:
+                        continue
+                    if pl['l'] == d and pl['pr'] and pl['pr'][0]['k'] == 'field' and pl['pr'][0].get('name') == '0':
+                        used = True
+                    elif flags and (du.slice_operand(o)[0] & flags):
+                        used = True
+            if used:
+                res.append(ok(rule, '%s tests (or returns) the exact-match flag of the search at %s' % (fn.qual, fn.loc(bb)), sites=1))
+            else:
+                res.append(bad(rule, '%s | exact-match flag of the search dropped' % fn.qual,
+                               '%s calls the tree search at %s and never looks at the exact-match flag it returns: for an absent key the search stops on the neighbouring entry, '
+                               'so the caller reads, replaces or deletes the wrong entry' % (fn.qual, fn.loc(bb)), where=fn.loc(bb)))
+    f = floor(rule, 'call sites of the tree search', n, 4)
+    if f:
+        res.append(f)
+    return res
+
+
+REGISTRIES = {'InnerBucket': 'buckets', 'Node': 'nodes'}
+
+
+def overlay_registered(ctx, rule='C07.overlay-registered'):
+    """a transaction sees its own writes only if every handle to a child bucket or a materialised node is the ONE shared copy registered in the parent
+    (InnerBucket.buckets / InnerBucket.nodes): a freshly built Rc<RefCell<..>> must be registered before the method can return normally"""
+    from effects import fn_effect_sites
+    res = []
+    F = ctx.facts
+    n = 0
+    for fn in F.fns:
+        if fn.kind == 'Closure' or not fn.self_adt or last_seg(fn.self_adt) != 'InnerBucket':
+            continue
+        creations = []
+        for bb in sorted(fn.reachable_blocks()):
+            t = fn.term(bb)
+            c = callee_of(t) if t['k'] == 'call' else None
+            if c and strip_generics(c['path']) in ('std::rc::Rc::new', 'alloc::rc::Rc::new') and not t['dest']['pr']:
+                ty = fn.locals[t['dest']['l']]['ty']
+                for what, reg in REGISTRIES.items():
+                    if ty.startswith('std::rc::Rc<std::cell::RefCell<') and ('::%s<' % what in ty or '::%s>' % what in ty):
+                        creations.append((bb, what, reg))
+        if not creations:
+            continue
+        sites = fn_effect_sites(F, fn)
+        for bb, what, reg in creations:
+            n += 1
+            regs = {b2 for (b2, adt, field, how) in sites if adt and last_seg(adt) == 'InnerBucket' and field == reg and how in ('insert', 'push', 'entry', 'or_insert', 'or_insert_with', 'extend', 'store')}
+            # ... or it becomes the registry of a bucket that is being built (InnerBucket { nodes: vec![..], .. })
+            du = ctx.du(fn)
+            dl = fn.term(bb)['dest']['l']
+            for b2 in fn.reachable_blocks():
+                for st in fn.blocks[b2]['stmts']:
+                    if st['k'] == 'assign' and st['rv']['k'] == 'agg' and st['rv'].get('ak') == 'adt' and last_seg(st['rv']['adt']) == 'InnerBucket':
+                        for nme, o in zip(st['rv']['fields'], st['rv']['ops']):
+                            if nme == reg and op_place(o) is not None and dl in du.slice_operand(o)[0]:
+                                regs.add(b2)
+            reach = fn.reach_from(fn.succ(bb), avoid=regs)
+            leaks = [b2 for b2 in sorted(reach) if fn.term(b2)['k'] == 'return']
+            if regs and not leaks:
+                res.append(ok(rule, '%s: the %s handle built at %s is registered in InnerBucket.%s on every path to a return' % (fn.qual, what, fn.loc(bb), reg), sites=1))
+            else:
+                res.append(bad(rule, '%s | %s handle not registered in InnerBucket.%s' % (fn.qual, what, reg),
+                               '%s builds a new shared %s at %s and can return without registering it in InnerBucket.%s: the caller gets a private copy, so writes made through it are '
+                               'invisible to every other lookup in the same transaction and are lost at commit' % (fn.qual, what, fn.loc(bb), reg), where=fn.loc(bb)))
+    f = floor(rule, 'constructions of shared bucket / node handles in InnerBucket methods', n, 3)
+    if f:
+        res.append(f)
+    return res
+
+
 def run(ctx, tier):
     results = []
     results += overlay_first(ctx)
     results += read_via_overlay(ctx)
     results += reresolve(ctx)
     results += single_root(ctx)
+    results += exact_match_used(ctx)
+    results += overlay_registered(ctx)
     import c08
     results += c08.start_compare(ctx, rule='C07.range-start-compare')
     results += c08.index_agreement(ctx, rule='C07.index-agreement')
